@@ -138,6 +138,9 @@ def jval(v):
         return {"set": sorted((jval(x) for x in v), key=lambda j: json.dumps(j, sort_keys=True))}
     if isinstance(v, dict):
         return {"d": [[k, jval(x)] for k, x in v.items()]}
+    import collections.abc as _abc
+    if isinstance(v, _abc.Mapping):                  # e.g. collections.UserDict: replayed as a dict (the tag says what it was)
+        return {"d": [[k, jval(x)] for k, x in v.items()]}
     if callable(v) and hasattr(v, "_pool_name"):
         return {"u": v._pool_name}
     if hasattr(v, "all") and hasattr(v, "_storage"):        # a Registry
